@@ -22,7 +22,7 @@ def wf(prop, graph, items, buf, mx, kind="func", mode="dpor", oracles=(), events
     job = {"id": jid, "prop": prop, "scen": scen, "mode": mode, "budget": kw.pop("budget", budget(tier)), "oracles": list(oracles), "events_dep": events_dep, "force_all": -1}
     job.update(kw)
     # scenarios that can also be run natively (real runtime, real bash, un-instrumented scipipe)
-    if graph not in ("tasks", "slots", "gjoin", "gjoin2") and mode == "dpor" and not job.get("crash") and not job.get("race") and scen.get("extra") in (None, "", "recorder", "subdir") \
+    if graph not in ("tasks", "slots", "gjoin", "gjoin2") and mode == "dpor" and not job.get("crash") and not job.get("race") and scen.get("extra") in (None, "", "recorder", "subdir", "emptyparam-setout") \
             and not job.get("seed_dir") and job.get("omit_edge") is None and not job.get("omit_fromstr") and not job.get("drop_proc") and not job.get("force_order") and not job.get("fault"):
         # (failing runs are not compared natively: os.Exit does not kill the task's child processes,
         # which the model's process-group kill does)
@@ -88,7 +88,9 @@ def plan_c04(tier, seed):
         add("g14a", 1, 1, 1)
         add("g6b", 1, 1, 1); add("g6b", 2, 1, 2)
         add("g6b", 2, 1, 2, pre={"in1.txt.p": "p.out(in=in1.txt;)"}, id="C04-g6b-i2-m2-pre1")
+        add("g8", 3, 1, 2, "func", extra="emptyparam-setout", id="C04-g8-i3-m2-empty-param-in-path")
     else:
+        add("g8", 3, 1, 2, "func", extra="emptyparam-setout", id="C04-g8-i3-m2-empty-param-in-path")
         add("g6b", 2, 1, 2, pre={"in1.txt.p": "p.out(in=in1.txt;)"}, id="C04-g6b-i2-m2-pre1")
         add("g6b", 3, 1, 3, pre={"in1.txt.p": "p.out(in=in1.txt;)", "in2.txt.p": "p.out(in=in2.txt;)"}, id="C04-g6b-i3-m3-pre12")
         for g in ("g2", "g3", "g4", "g5", "g5b", "g6", "g6b", "g7", "g8", "g8b", "g9", "g12", "g14", "g14a"):
@@ -155,12 +157,13 @@ def plan_c05(tier, seed):
         add("g11", 1, 1, 1); add("g11", 2, 1, 2)
         add("g4", 1, 1, 1); add("g5", 1, 1, 1); add("g7", 1, 1, 1); add("g8", 1, 1, 1); add("g9", 1, 1, 2)
         add("g12", 3, 1, 1)
+        add("g10b", 1, 1, 2); add("g10b", 3, 1, 1); add("g10b", 6, 1, 2, mode="delay", delay=1, id="C05-g10b-i6-b1-m2-delay1")  # stream well beyond the buffers: the sink must run concurrently with the driver
         # slot configurations: multi-core tasks competing for the slots (partial acquisition)
         add("g2", 2, 1, 2, cores=[2]); add("g13", 1, 1, 2, cores=[2, 2]); add("g13", 1, 1, 3, cores=[2, 2]); add("g3", 2, 1, 2, cores=[2, 1])
         add("g3", 1, 1, 1, runto=["p"], id="C05-g3-runto-p")
         add("g11", 1, 1, 1, runto=["last"], id="C05-g11-runto-last")
     else:
-        for g in ("g1", "g2", "g3", "g4", "g5", "g6", "g7", "g8", "g9", "g10", "g11", "g12"):
+        for g in ("g1", "g2", "g3", "g4", "g5", "g6", "g7", "g8", "g9", "g10", "g10b", "g11", "g12"):
             for i in (0, 1, 2, 3):
                 for b in (1, 2):
                     for m in (1, 2):
@@ -168,6 +171,7 @@ def plan_c05(tier, seed):
                             continue
                         add(g, i, b, m)
         add("g12", 4, 2, 2)
+        add("g10b", 6, 1, 2, mode="delay", delay=2, id="C05-g10b-i6-b1-m2-delay2"); add("g10b", 9, 2, 2, mode="delay", delay=1, id="C05-g10b-i9-b2-m2-delay1")
         add("g2", 2, 1, 2, cores=[2]); add("g2", 3, 1, 3, cores=[2]); add("g13", 1, 1, 2, cores=[2, 2]); add("g13", 1, 1, 3, cores=[2, 2]); add("g13", 1, 1, 3, cores=[2, 2, 1]); add("g3", 2, 1, 2, cores=[2, 1])
         add("g3", 2, 1, 2, runto=["p"], id="C05-g3-runto-p")
         add("g11", 2, 1, 2, runto=["last"], id="C05-g11-runto-last")
@@ -202,6 +206,10 @@ def plan_c06(tier, seed):
     jobs.append(with_delay_fallback(wf("C06", "g2", 2, 1, 1, oracles=o, tier=tier)))
     jobs.append(with_delay_fallback(wf("C06", "g9", 1, 1, 1, oracles=o, tier=tier)))
     jobs.append(with_delay_fallback(wf("C06", "g2", 2, 1, 2, "cmd", oracles=o, tier=tier)))
+    # skipped tasks (pre-existing outputs) hold no slots and must not release anybody else's
+    jobs.append(with_delay_fallback(wf("C06", "g2", 3, 1, 1, oracles=o, tier=tier, pre={"in0.txt.p": "p.out(in=in0.txt;)"}, id="C06-g2-i3-m1-pre0")))
+    jobs.append(with_delay_fallback(wf("C06", "g2", 3, 1, 2, oracles=o, tier=tier, pre={"in1.txt.p": "p.out(in=in1.txt;)"}, id="C06-g2-i3-m2-pre1")))
+    jobs.append(with_delay_fallback(wf("C06", "g2", 3, 2, 1, "cmd", oracles=o, tier=tier, pre={"in0.txt.p": "p.out(in=in0.txt;)", "in2.txt.p": "p.out(in=in2.txt;)"}, id="C06-g2-i3-m1-pre02-cmd")))
     if tier != "quick":
         for mx in (2, 3):
             for cores in multisets(mx, 3):
@@ -352,7 +360,7 @@ def validate_native(plan, ctx, results, runs=3):
     validated, problems = 0, []
     for r in results:
         j = r["job"]
-        if not j.get("_native") or r.get("error") or (r.get("stats") or {}).get("mode") != "dpor+sleep" or not (r.get("stats") or {}).get("closed") or not r.get("outcomes"):
+        if not j.get("_native") or r.get("error") or r.get("violations") or (r.get("stats") or {}).get("mode") != "dpor+sleep" or not (r.get("stats") or {}).get("closed") or not r.get("outcomes"):
             continue
         if len(r["outcomes"]) >= 40:
             continue
@@ -470,7 +478,7 @@ def finish(prop, tier, seed, plan, results, known, classify, wall, build_s, writ
 
 # ------------------------------------------------------------------------------------ faults / crashes
 
-FAULT_KINDS = ["exit-before", "exit-mid", "exit-after", "killed", "missing"]
+FAULT_KINDS = ["exit-before", "exit-mid", "exit-after", "killed", "missing", "missing-last"]
 
 
 def fault_targets(graph, items):
@@ -498,7 +506,7 @@ def plan_c09(tier, seed):
             for fk in ("exit-mid", "missing"):
                 add("g3", 1, 1, 1, "func", p, mt, fk)
         for (p, mt) in fault_targets("g7", 1):
-            for fk in ("exit-mid", "exit-after", "missing"):
+            for fk in ("exit-mid", "exit-after", "missing", "missing-last"):
                 add("g7", 1, 1, 2, "cmd", p, mt, fk)
         for (p, mt) in fault_targets("g4", 1):
             add("g4", 1, 1, 2, "cmd", p, mt, "exit-after")
@@ -537,6 +545,7 @@ def crash_explore_jobs(prop, tier, oracles, snap_root=None):
     add("g3", 1, 1, "cmd")
     add("g8", 1, 1, "cmd")
     add("g14a", 1, 1, "func")
+    add("g3", 1, 1, "cmd", extra="dirout")   # a directory as declared output: mkdir {o:out} && files inside
     # two tasks in flight
     add("g2", 2, 2, "cmd", disk_dep=False, mode="delay", delay=2 if not q else 1, depth2=not q)
     if not q or prop == "C01":
